@@ -2,11 +2,13 @@
    lines of code (strip one "+", test the LicenseRef prefix, search the table); the theorems below say the same as an `iff` over
    core / plus / LicenseRef suffix / known id, so that "known identifier" is a statement one can read instead of code one must run.
 
-   The three places where the definition follows the code rather than SPDX proper are visible in the statement:
-     - the suffix of a LicenseRef may be empty                (`forallb ref_char suffix = true` holds for [])
-     - a LicenseRef may carry "+"                             (`plus = [43]` is allowed in both branches)
-     - a table id that itself ends in "+" may carry a further "+"  ("GPL-2.0+" is a known id, so core = "GPL-2.0+", plus = "+")
-   LicIds.strict_simple below is the reading of SPDX proper, and lic_canon_vs_strict says exactly where the two differ. *)
+   Visible in the statement:
+     - the suffix (idstring) of a LicenseRef is NOT empty     (`suffix <> []`; the code rejects "LicenseRef-" since fix 8e6ceae)
+     - a LicenseRef may carry "+"                             (`plus = [43]` is allowed in both branches; SPDX proper has none)
+     - a table id that itself ends in "+" may carry a further "+"  ("GPL-2.0+" is a known id, so core = "GPL-2.0+", plus = "+":
+       license-id "+", within SPDX proper)
+   LicIds.strict_simple below is the reading of SPDX proper, and lic_canon_vs_strict says exactly where the two differ:
+   only in the "+" on a LicenseRef. *)
 From Coq Require Import List Arith NArith Bool Lia.
 Import ListNotations.
 Require Import VParse LicModel LicAuto LicSpec LicLex LicCode LicIdem.
@@ -84,37 +86,42 @@ Proof.
     + subst w. rewrite last_is_snoc. change (43 =? 43) with true. now rewrite removelast_last.
 Qed.
 
-(* the statement proposed by the audit: lic_canon unfolded into an iff *)
+Lemma nonemptyb_iff (x : str) : nonemptyb x = true <-> x <> [].
+Proof. destruct x; cbn [nonemptyb]; split; intros H; try discriminate; try reflexivity. exfalso. now apply H. Qed.
+
+(* the statement proposed by the audit: lic_canon unfolded into an iff (with the non-empty idstring of fix 8e6ceae) *)
 Theorem lic_canon_iff w o : lic_canon lics w = Some o <->
   exists core plus, w = core ++ plus /\ ((plus = [] /\ last_is 43 w = false) \/ plus = [43]) /\
-    ((prefixb licenseref_lc (afold core) = true /\ forallb ref_char core = true /\ o = licenseref_prefix ++ skipn 11 core ++ plus) \/
+    ((prefixb licenseref_lc (afold core) = true /\ forallb ref_char core = true /\ skipn 11 core <> [] /\
+      o = licenseref_prefix ++ skipn 11 core ++ plus) \/
      (prefixb licenseref_lc (afold core) = false /\ exists id, In id (map snd lics) /\ afold id = afold core /\ o = id ++ plus)).
 Proof.
   unfold lic_canon. split.
   - destruct (strip_plus w) as [core plus] eqn:S. apply strip_plus_iff in S as [E Pl]. intros H. exists core, plus.
     split; [exact E|]. split; [exact Pl|].
     destruct (prefixb licenseref_lc (afold core)).
-    + left. destruct (forallb ref_char core); [|discriminate]. injection H as <-. auto.
+    + left. destruct (forallb ref_char core); [|discriminate]. destruct (nonemptyb (skipn 11 core)) eqn:N; [|discriminate].
+      injection H as <-. apply nonemptyb_iff in N. auto.
     + right. split; [reflexivity|]. destruct (find_id core (map snd lics)) as [id|] eqn:F; [|discriminate]. injection H as <-.
       apply find_id_in in F as [I F]. eauto.
   - intros (core & plus & E & Pl & H). assert (S : strip_plus w = (core, plus)) by (apply strip_plus_iff; auto). rewrite S.
-    destruct H as [(P & R & ->)|(P & id & I & F & ->)]; rewrite P.
-    + now rewrite R.
+    destruct H as [(P & R & N & ->)|(P & id & I & F & ->)]; rewrite P.
+    + apply nonemptyb_iff in N. now rewrite R, N.
     + assert (X : find_id core (map snd lics) = Some id) by (apply (find_id_iff lics (TOK_l _ _ TOK) NDl); auto). now rewrite X.
 Qed.
 
-(* the same, with the LicenseRef branch spelled as  prefix-in-any-case ++ suffix *)
+(* the same, with the LicenseRef branch spelled as  prefix-in-any-case ++ non-empty suffix *)
 Theorem simple_id_iff w o : lic_canon lics w = Some o <->
   exists core plus, w = core ++ plus /\ ((plus = [] /\ last_is 43 w = false) \/ plus = [43]) /\
-    ((exists p suffix, core = p ++ suffix /\ afold p = licenseref_lc /\ forallb ref_char suffix = true /\
+    ((exists p suffix, core = p ++ suffix /\ afold p = licenseref_lc /\ suffix <> [] /\ forallb ref_char suffix = true /\
                        o = licenseref_prefix ++ suffix ++ plus) \/
      (prefixb licenseref_lc (afold core) = false /\ exists id, In id (map snd lics) /\ afold id = afold core /\ o = id ++ plus)).
 Proof.
   rewrite lic_canon_iff. split; intros (core & plus & E & Pl & H); exists core, plus; (split; [exact E|]); (split; [exact Pl|]);
     (destruct H as [H|H]; [left|now right]).
-  - destruct H as (P & R & ->). apply licenseref_split in P as (p & suffix & -> & Ep). destruct (licenseref_parts p suffix Ep) as [Sk Fa].
-    exists p, suffix. rewrite Sk. rewrite Fa in R. auto.
-  - destruct H as (p & suffix & -> & Ep & R & ->). destruct (licenseref_parts p suffix Ep) as [Sk Fa]. rewrite Sk, Fa.
+  - destruct H as (P & R & N & ->). apply licenseref_split in P as (p & suffix & -> & Ep). destruct (licenseref_parts p suffix Ep) as [Sk Fa].
+    exists p, suffix. rewrite Sk in *. rewrite Fa in R. auto.
+  - destruct H as (p & suffix & -> & Ep & N & R & ->). destruct (licenseref_parts p suffix Ep) as [Sk Fa]. rewrite Sk, Fa.
     split; [apply licenseref_split; eauto|auto].
 Qed.
 
@@ -125,44 +132,32 @@ Proof. unfold exc_canon. apply (find_id_iff excs (TOK_e _ _ TOK) NDe). Qed.
 (* ---------------------------------------------------------------- SPDX proper, and where the code's reading differs from it *)
 (* simple-expression = license-id / license-id "+" / license-ref ;  license-ref = "LicenseRef-" idstring ;  idstring = 1*(ALPHA/DIGIT/"-"/".")
    (Annex D of the SPDX specification).  A deprecated id such as "GPL-2.0+" is a license-id of the table, so "GPL-2.0++" IS
-   license-id "+" in this grammar; what SPDX proper does not have is an empty idstring and a "+" on a license-ref. *)
+   license-id "+" in this grammar; what SPDX proper does not have is a "+" on a license-ref. *)
 Definition strict_simple (w o : str) : Prop :=
   (exists p suffix, w = p ++ suffix /\ afold p = licenseref_lc /\ suffix <> [] /\ forallb ref_char suffix = true /\
                     o = licenseref_prefix ++ suffix) \/
   (exists core plus, w = core ++ plus /\ ((plus = [] /\ last_is 43 w = false) \/ plus = [43]) /\
                      prefixb licenseref_lc (afold core) = false /\
                      exists id, In id (map snd lics) /\ afold id = afold core /\ o = id ++ plus).
-(* the two extra forms the code (and LicSpec.lic_canon) takes *)
-Definition ref_empty_suffix (w : str) : Prop := exists p plus, w = p ++ plus /\ afold p = licenseref_lc /\ (plus = [] \/ plus = [43]).
+(* the one extra form the code (and LicSpec.lic_canon) takes *)
 Definition ref_with_plus (w : str) : Prop :=
   exists p suffix, w = p ++ suffix ++ [43] /\ afold p = licenseref_lc /\ suffix <> [] /\ forallb ref_char suffix = true.
 
 Theorem lic_canon_vs_strict w o : lic_canon lics w = Some o <->
-  strict_simple w o \/
-  (ref_empty_suffix w /\ o = licenseref_prefix ++ skipn 11 w) \/
-  (ref_with_plus w /\ o = licenseref_prefix ++ skipn 11 w).
+  strict_simple w o \/ (ref_with_plus w /\ o = licenseref_prefix ++ skipn 11 w).
 Proof.
   rewrite simple_id_iff. split.
-  - intros (core & plus & E & Pl & [(p & suffix & -> & Ep & R & ->)|H]).
+  - intros (core & plus & E & Pl & [(p & suffix & -> & Ep & Ne & R & ->)|H]).
     + destruct (licenseref_parts p (suffix ++ plus) Ep) as [Sk _]. rewrite <- app_assoc in E.
-      destruct suffix as [|c suffix].
-      * right. left. split; [exists p, plus; split; [exact E|]; split; [exact Ep|]; destruct Pl as [[-> _]| ->]; auto|].
-        rewrite E, Sk. reflexivity.
-      * destruct Pl as [[-> L]| ->].
-        -- left. left. exists p, (c :: suffix). rewrite !app_nil_r in *. repeat split; auto. discriminate.
-        -- right. right. split; [exists p, (c :: suffix); repeat split; auto; discriminate|]. rewrite E, Sk. reflexivity.
+      destruct Pl as [[-> L]| ->].
+      * left. left. exists p, suffix. rewrite !app_nil_r in *. repeat split; auto.
+      * right. split; [exists p, suffix; repeat split; auto|]. rewrite E, Sk. reflexivity.
     + left. right. exists core, plus. auto.
-  - intros [[(p & suffix & -> & Ep & Ne & R & ->)|(core & plus & E & Pl & P & H)]|[[(p & plus & -> & Ep & Pl) ->]|[(p & suffix & -> & Ep & Ne & R) ->]]].
+  - intros [[(p & suffix & -> & Ep & Ne & R & ->)|(core & plus & E & Pl & P & H)]|[(p & suffix & -> & Ep & Ne & R) ->]].
     + exists (p ++ suffix), []. rewrite !app_nil_r. split; [reflexivity|]. split.
       * left. split; [reflexivity|]. rewrite last_is_app by exact Ne. now apply last_is_ref.
       * left. exists p, suffix. repeat split; auto. now rewrite app_nil_r.
     + exists core, plus. auto.
-    + destruct (licenseref_parts p plus Ep) as [Sk _]. rewrite Sk.
-      assert (Lp : last_is 43 p = false).
-      { rewrite <- last_is_afold, Ep. reflexivity. }
-      exists p, plus. split; [reflexivity|]. split.
-      * destruct Pl as [-> | ->]; [left; split; [reflexivity|now rewrite app_nil_r]|now right].
-      * left. exists p, []. split; [now rewrite app_nil_r|]. split; [exact Ep|]. split; [reflexivity|]. reflexivity.
     + destruct (licenseref_parts p (suffix ++ [43]) Ep) as [Sk _]. rewrite Sk.
       exists (p ++ suffix), [43]. split; [now rewrite app_assoc|]. split; [now right|].
       left. exists p, suffix. repeat split; auto.
